@@ -28,7 +28,7 @@ INCS = [1, 1000, 10 ** 6, 3 * 10 ** 9, 10 ** 11]
 
 
 def strategy(tier):
-    cfg = gen.Cfg(max_tasks=10 if tier == "quick" else 25, sync=True, ctx=("rec", "ov"), dag=True, ditem=True, prio="tiefree", itemvalue=True,
+    cfg = gen.Cfg(max_tasks=10 if tier == "quick" else 25, sync=True, ctx=("rec", "ov"), dag=True, ditem=True, prio="tiefree", itemvalue=True, tools=("dd", "alru", "agen", "amap", "asorted", "amin", "retry", "cwc"),
                   flush_faults=("raise",), convs=("call", "value", "wrapper"),
                   shapes=("reentry", "reentry", "reentry", "tree", "comb", "chain", "diamond", "stagger", "free"))
     subset = st.lists(st.sampled_from(BOOL_OPTIONS), min_size=2, max_size=6, unique=True)
